@@ -7,6 +7,8 @@
 (* `Tzdb.check` event must agree with the name list of the `Tzdb.names`     *)
 (* event. A disagreement prints a MISMATCH line with the class label        *)
 (* computed here from the table, and the trace goes on.                     *)
+(* `Tzdb.define` events introduce synthetic files (zones synth/<n>); their  *)
+(* tables arrive by `Tzdb.table` events like those of real files.           *)
 (***************************************************************************)
 EXTENDS TzifClasses, TraceBase
 
@@ -31,6 +33,8 @@ Obs(e) == IF e.out.kind \in ErrKinds THEN Fail
           ELSE IF \A i \in 1..Len(e.out.val) : e.out.val[i].ns = SubNs(e) /\ e.out.val[i].s \in 0..(DaySec - 1)
                THEN OkV({Pt(e.out.val[i]) : i \in 1..Len(e.out.val)})
                ELSE [kind |-> "bad-subsecond"]
+Ascending(e) == e.op # "Tzdb.local" \/ e.out.kind # "ok"
+                \/ \A i \in 1..(Len(e.out.val) - 1) : Lt(Pt(e.out.val[i]), Pt(e.out.val[i + 1]))
 \* expected outcome in the log's vocabulary (for the MISMATCH line)
 Show(e, x) == IF x.kind # "ok" THEN x
               ELSE IF e.op = "Tzdb.offset" THEN OkV([off |-> x.val])
@@ -84,6 +88,14 @@ LoadTable ==
      ELSE disk' = Put(disk, E.args.zone, Missing)
   /\ last' = [op |-> "table"]
   /\ UNCHANGED <<cache, hist>>
+\* synthetic TZif data: the bytes written from the logged description become a file of the environment; what they say is
+\* taken from the following `Tzdb.table` event (the parser's reading), not from the description. The library's own parser
+\* may reject them (an error), nothing else
+Define ==
+  /\ E.op = "Tzdb.define"
+  /\ IF E.out.kind \in {"ok"} \cup ErrKinds THEN TRUE
+     ELSE Report(l, E.op, "define", "accepted or rejected with an error", E.out)
+  /\ last' = [op |-> "define"] /\ UNCHANGED <<disk, cache, hist>>
 QueryStep ==
   /\ IsQuery(E)
   /\ LET q == QOf(E)
@@ -92,7 +104,10 @@ QueryStep ==
          exp == IF Unanswerable(E, exp0) THEN Fail ELSE exp0
          obs == Obs(E)
      IN IF known /\ exp = obs
-        THEN QueryWith(q, exp0) /\ (IF Classes THEN PrintT("CLS " \o ClsOf(E)) ELSE TRUE)
+        THEN /\ QueryWith(q, exp0) /\ (IF Classes THEN PrintT("CLS " \o ClsOf(E)) ELSE TRUE)
+             \* the right set of instants, but not in ascending order (GetNamedTimeZoneEpochNanoseconds; disambiguation
+             \* takes the first as the earlier and the last as the later): one class, whatever the position
+             /\ (IF Ascending(E) THEN TRUE ELSE Report(l, E.op, "instants-not-ascending", "the instants in ascending order", E.out))
         ELSE /\ Report(l, E.op, ClsOf(E), IF known THEN Show(E, exp) ELSE exp, E.out)
              \* resync: the provider has (or has not) read the file, whatever it answered
              /\ IF known THEN QueryWith(q, exp0) ELSE UNCHANGED <<disk, cache, hist, last>>
@@ -105,7 +120,7 @@ Check ==
         ELSE Report(l, E.op, CheckCls(E.args.chars), exp, E.out)
   /\ last' = [op |-> "check"] /\ UNCHANGED <<disk, cache, hist>>
 
-TNext == l <= NEv /\ l' = l + 1 /\ (Reset \/ Fresh \/ LoadTable \/ QueryStep \/ Names \/ Check)
+TNext == l <= NEv /\ l' = l + 1 /\ (Reset \/ Fresh \/ Define \/ LoadTable \/ QueryStep \/ Names \/ Check)
 TSpec == TInit /\ [][TNext]_tvars
 
 \* evaluated at every step of the trace: the memo never differs from the files read
